@@ -102,8 +102,13 @@ def oracle_exact_branches(g, rc, obs):
 
 
 def make_case(rng):
-    fam = rng.choice(["gated", "gated", "gated", "loop", "loop_sync", "gated_loop"])
-    if fam == "gated_loop":
+    fam = rng.choice(["gated", "gated", "gated", "loop", "loop_sync", "gated_loop", "late_signal"])
+    if fam == "late_signal":
+        # closed-by-default gate waiting on a signal that is re-emitted one superstep AFTER its data input changed:
+        # the standing decision is stale in between and must not let the target through again
+        from harness.props.c04 import late_signal_loop
+        g = late_signal_loop(rng, rng.randint(1, 3), rng.randint(0, 5), rng.choice(["route", "ifelse"]))
+    elif fam == "gated_loop":
         g = gen.add_gates(rng, gen.gen_loop(rng, accum=False), n_gates=1)
     else:
         g, _ = gen.gen_program(rng, fam)
@@ -139,6 +144,8 @@ def run(ctx):
             inputs = gen.make_inputs(rng, g)
         except Exception:  # noqa: BLE001
             continue
+        if fam == "late_signal":
+            inputs = {"x": 0}       # the iteration count of the sequential loop is stated for this start value
         dist["family"][fam] = dist["family"].get(fam, 0) + 1
         dist["explicit_edges"] += int(bool(g.get("explicit_edges")))
         rc = {"runner": rng.choice(["sync", "sync", "async"]), "inputs": inputs, "error_handling": "continue", "max_iterations": 50,
@@ -148,6 +155,13 @@ def run(ctx):
 
     def extra(i, g, rc, obs, batch, N):
         msgs = oracle_events(g, obs) + oracle_exact_branches(g, rc, obs)
+        lp = g.get("loop") or {}
+        if lp.get("family") == "L3" and obs["status"] == "completed":
+            # one body pass per decision that selects it: the sequential while loop
+            for j in range(1, lp["m"] + 1):
+                k = sum(1 for nm, _ in obs["log"] if nm == f"b{j}")
+                if k != lp["N"]:
+                    msgs.append(f"b{j} ran {k} times although the gate selected the body {lp['N']} times (a stale decision let it through again)")
         gated_started = sum(1 for ev in obs.get("events", []) if ev["type"] == "RouteDecisionEvent")
         if gated_started:
             nontrivial.add(engine.program_key(g, rc))
